@@ -249,52 +249,119 @@ func clip(s string, n int) string {
 }
 
 // crossPath: for every pair of completed paths whose path conditions are jointly satisfiable,
-// the observations under the given labels must be equal.
+// the observations under the given labels must be equal. Paths are bucketed by their path
+// condition (as a set): inside a bucket (same inputs, different schedule) every path is compared
+// with the bucket's representative; representatives of different buckets are compared unless
+// their conditions are syntactically contradictory.
 func (res *HarnessResult) crossPath(e *Engine, opts HarnessOpts, stats *SolverStats) {
 	s, err := NewSolver(e.SolverKind, e.TimeoutMs, stats, e.Prelude)
 	if err != nil {
 		panic(err)
 	}
 	defer s.Close()
-	ps := res.pathObs
-	for _, label := range opts.CrossPath {
-		for i := 0; i < len(ps); i++ {
-			for j := i + 1; j < len(ps); j++ {
-				a, b := ps[i].obs[label], ps[j].obs[label]
-				diff := obsDiffer(a, b)
-				if diff == TFalse {
-					continue
-				}
-				if contradictory(ps[i].pc, ps[j].pc) {
-					continue
-				}
-				res.CrossChecks++
-				res.Obligations++
-				var all []*Term
-				all = append(all, ps[i].pc...)
-				all = append(all, ps[j].pc...)
-				all = append(all, diff)
-				var vars []*Term
-				seen := map[*Term]bool{}
-				for _, t := range all {
-					collectDecls(t, seen, &vars)
-				}
-				var inputs []*Term
-				for _, v := range vars {
-					if v.Op == "var" {
-						inputs = append(inputs, v)
+	type bucket struct {
+		rep     *pathObs
+		set     map[*Term]bool
+		eqs     map[*Term]*Term // var -> constant it is equated with
+		members []*pathObs
+	}
+	buckets := map[string]*bucket{}
+	var order []string
+	for i := range res.pathObs {
+		po := &res.pathObs[i]
+		ks := make([]string, 0, len(po.pc))
+		set := map[*Term]bool{}
+		for _, t := range po.pc {
+			if !set[t] {
+				set[t] = true
+				ks = append(ks, fmt.Sprintf("%p", t))
+			}
+		}
+		sort.Strings(ks)
+		key := strings.Join(ks, ",")
+		b := buckets[key]
+		if b == nil {
+			eqs := map[*Term]*Term{}
+			for t := range set {
+				if t.Op == "=" && len(t.Args) == 2 {
+					x, y := t.Args[0], t.Args[1]
+					if x.Op == "const" {
+						x, y = y, x
+					}
+					if x.Op == "var" && y.Op == "const" {
+						eqs[x] = y
 					}
 				}
-				r, m := s.CheckModel(inputs, all...)
-				switch r {
-				case Unsat:
-					res.Discharged++
-				case Sat:
-					res.Violations = append(res.Violations, Violation{Harness: res.Name, Label: "cross-path:" + label, Model: m,
-						Decisions: ps[i].dec, Detail: fmt.Sprintf("paths %v and %v observe different %s: %s vs %s", ps[i].dec, ps[j].dec, label, clip(obsString(a), 300), clip(obsString(b), 300))})
-				default:
-					res.Inconclusive = append(res.Inconclusive, "cross-path "+label+": solver unknown")
+			}
+			b = &bucket{rep: po, set: set, eqs: eqs}
+			buckets[key] = b
+			order = append(order, key)
+		}
+		b.members = append(b.members, po)
+	}
+	query := func(label string, a, b *pathObs) {
+		diff := obsDiffer(a.obs[label], b.obs[label])
+		if diff == TFalse {
+			return
+		}
+		res.CrossChecks++
+		res.Obligations++
+		var all []*Term
+		all = append(all, a.pc...)
+		all = append(all, b.pc...)
+		all = append(all, diff)
+		var vars []*Term
+		seen := map[*Term]bool{}
+		for _, t := range all {
+			collectDecls(t, seen, &vars)
+		}
+		var inputs []*Term
+		for _, v := range vars {
+			if v.Op == "var" {
+				inputs = append(inputs, v)
+			}
+		}
+		r, m := s.CheckModel(inputs, all...)
+		switch r {
+		case Unsat:
+			res.Discharged++
+		case Sat:
+			res.Violations = append(res.Violations, Violation{Harness: res.Name, Label: "cross-path:" + label, Model: m,
+				Decisions: a.dec, Detail: fmt.Sprintf("paths %v and %v observe different %s: %s vs %s", a.dec, b.dec, label, clip(obsString(a.obs[label]), 300), clip(obsString(b.obs[label]), 300))})
+		default:
+			res.Inconclusive = append(res.Inconclusive, "cross-path "+label+": solver unknown")
+		}
+	}
+	for _, label := range opts.CrossPath {
+		for _, k := range order {
+			b := buckets[k]
+			for _, m := range b.members[1:] {
+				query(label, b.rep, m)
+			}
+		}
+		for i := 0; i < len(order); i++ {
+			bi := buckets[order[i]]
+			for j := i + 1; j < len(order); j++ {
+				bj := buckets[order[j]]
+				contra := false
+				for t := range bj.set {
+					if bi.set[Not(t)] {
+						contra = true
+						break
+					}
 				}
+				if !contra {
+					for v, c := range bj.eqs {
+						if c2, ok := bi.eqs[v]; ok && c2 != c {
+							contra = true
+							break
+						}
+					}
+				}
+				if contra {
+					continue
+				}
+				query(label, bi.rep, bj.rep)
 			}
 		}
 	}
